@@ -407,7 +407,7 @@ class SigmaString(SigmaType):
         return self.to_plain(regex=True)
 
     def __bytes__(self) -> bytes:
-        return str(self).encode()
+        return self.to_plain_regex().encode()
 
     def __len__(self) -> int:
         return sum(
